@@ -9,3 +9,39 @@ package mvt
 //@   mode bv
 //@   pure
 //@   ensures result <==> (n == 0 || (exists k uint32 :: k < 32 && n == (1 << k)))
+
+// zigzag: the encoder writes uint32((x<<1)^(x>>31)) for an int32 delta x (geomEncoder.addPoints);
+// unzigzag inverts it for every one of the 2^32 values
+//@ func unzigzag(v)
+//@   mode bv
+//@   pure
+//@   ensures forall x int32 :: v == uint32((x << 1) ^ (x >> 31)) ==> same(result, float64(x))
+
+//@ lemma zigzag_injective: forall x int32, y int32 :: uint32((x << 1) ^ (x >> 31)) == uint32((y << 1) ^ (y >> 31)) ==> x == y
+//@   mode bv
+
+// ---------------------------------------------------------------- geometry command stream decoder (C05)
+// gd.count is the number of varints in the packed geometry field (at most the input length).
+
+//@ func (*geomDecoder).cmdAndCount(gd) (cmd, count, err)
+//@   requires gd.iter != nil && 0 <= gd.used && gd.used <= 4611686018427387904
+//@   ensures gd.count == old(gd.count) && gd.iter == old(gd.iter) && gd.used >= old(gd.used)
+//@   ensures err == nil && cmd != 7 ==> gd.used + 2*count <= gd.count
+
+//@ func (*geomDecoder).NextPoint(gd)
+//@   mode bv
+//@   requires gd.iter != nil
+//@   ensures gd.count == old(gd.count) && gd.iter == old(gd.iter)
+
+//@ func (*geomDecoder).done(gd)
+//@   requires gd.iter != nil
+//@   ensures gd.count == old(gd.count) && gd.iter == old(gd.iter) && gd.used == old(gd.used)
+
+// every make() in the geometry decoders is bounded by the number of varints actually present
+//@ func (*geomDecoder).decodePoint(gd)
+//@   requires gd.iter != nil && gd.used >= 0 && gd.used <= 1099511627776
+//@   opt alloc=gd.count
+
+//@ func (*geomDecoder).decodeLine(gd)
+//@   requires gd.iter != nil && gd.used >= 0 && gd.used <= 1099511627776
+//@   opt alloc=gd.count+1
